@@ -361,3 +361,29 @@ func (r *runner) scRepublish() {
 	r.opSnapshot()
 	r.opClose()
 }
+
+// scL0Ret: L0 retention while an upload is pending. Short L0Retention; every round leaves a local L0 file
+// waiting for upload (DB.Sync without Replica.Sync) when the L1 compaction (which runs L0 retention) and
+// an explicit EnforceL0RetentionByTime delete remote L0 files and their local copies; only then the
+// pending file is uploaded.
+func (r *runner) scL0Ret() {
+	r.db.L0Retention = time.Millisecond
+	if !r.opOpen() {
+		return
+	}
+	r.syncUploadRounds(r.rounds)
+	for i := 0; i < 3; i++ {
+		r.insert()
+		r.opSync() // local L0 file R+1, upload pending
+		time.Sleep(15 * time.Millisecond)
+		r.opCompact(1) // L0 → L1, then L0 retention by time
+		r.insert()
+		r.opSync() // a second pending file
+		time.Sleep(15 * time.Millisecond)
+		r.op("retain-l0", func() (uint64, error) { return r.repTX(), r.db.EnforceL0RetentionByTime(r.ctx) })
+		r.opUpload()
+	}
+	r.insert()
+	r.opSyncAndWait()
+	r.opClose()
+}
